@@ -23,7 +23,7 @@ RULE = ('seeded schedules: IMU stamps uniform / jittered / with 1..3 data gaps, 
         ' Round 3: every third schedule is run a second time with the same measurement / model objects and judged again.')
 ASSUMPTIONS = ['termination is decided as bounded progress: while-header visits <= 2 (increments + epochs in span) + 4 (sys.monitoring), '
                'never by wall clock', 'two streams of the same measurement class are outside the documented interface and not generated']
-REQUIRED_OBS = ['reruns_with_same_objects', 'schedules_with_permuted_tables', 'schedules_with_tiny_record', 'runs_completed', 'loop_iterations', 'integrate_events', 'predict_events', 'hit_events', 'correct_events',
+REQUIRED_OBS = ['reruns_with_same_objects', 'schedules_with_permuted_tables', 'schedules_with_tiny_record', 'runs_with_small_integrator_capacity', 'schedules_with_independent_triad_models', 'runs_completed', 'loop_iterations', 'integrate_events', 'predict_events', 'hit_events', 'correct_events',
                 'schedules_with_clusters', 'schedules_with_gaps', 'schedules_without_measurements', 'epochs_inside_total',
                 'time_step_below_imu_interval', 'offline_checks']
 REQUIRED_CLASSES = {'all': ['uniform', 'jitter', 'gaps']}
@@ -61,6 +61,13 @@ def run_filter(S, loop, initial=None):
     # outer iteration, hence the factor 2 (the bound stays linear in the size of the schedule)
     budget = 2 * (len(S['increments']) + n_epochs) + 4
     loop.reset(budget, 400 * budget + 5000)
+    # "any IMU sampling" includes any record LENGTH: the filter's internal integrator grows its buffers at 10000 * 2^k rows; with a small
+    # initial capacity the growth boundaries (a batch or a predict landing exactly on a full buffer) fall inside these short records
+    from pyins import strapdown
+    old_size = strapdown.Integrator.INITIAL_SIZE
+    cap = S.get('integrator_capacity')
+    if cap:
+        strapdown.Integrator.INITIAL_SIZE = int(cap)
     events.start()
     try:
         r = filters.run_feedback_filter(initial, 5, 1, 0.5, 1.0, S['increments'], S['gyro_model'], S['accel_model'],
@@ -73,10 +80,14 @@ def run_filter(S, loop, initial=None):
     except Exception as e:
         import traceback
         return None, events.stop(), vio('exception', f'{type(e).__name__}: {e}', tb=traceback.format_exc()[-1500:])
+    finally:
+        strapdown.Integrator.INITIAL_SIZE = old_size
 
 
 def run_case(case):
     S = schedules.build(case['seed'])
+    if case['seed'] % 2 == 1:
+        S['integrator_capacity'] = 2 + (case['seed'] * 7) % 40
     loop = LOOP['m']
     d = S['describe']
     obs = {}
@@ -92,6 +103,8 @@ def run_case(case):
     obs['miss_events'] = sum(e['kind'] == 'compute_matrices' and not e['hit'] for e in ev)
     obs['correct_events'] = sum(e['kind'] == 'correct' for e in ev)
     obs['epochs_inside_total'] = d['epochs_inside']
+    obs['runs_with_small_integrator_capacity'] = int(bool(S.get('integrator_capacity')))
+    obs['schedules_with_independent_triad_models'] = int(bool(d.get('mixed_models')))
     obs['schedules_with_tiny_record'] = int(bool(d.get('tiny_record')))
     obs['schedules_with_permuted_tables'] = int(bool(d.get('tables_permuted')))
     obs['schedules_with_clusters'] = int(d['max_epochs_in_one_interval'] >= 2)
